@@ -1599,6 +1599,43 @@ def kept_iterators(index, rep):
         rep.ok(rule, "no one-shot iterator is kept on an object and read twice", detail="zip/map/filter/iter/generator values stored in attributes")
 
 
+def _later_writers(index, fn, blk, key):
+    """statements of `fn` that run after the top-level block `blk` and write constants_for_params[key]: directly, through a Scenarios
+    setter (the keys it writes are read off its body, helpers inlined) or through a ScenarioRunner helper (two levels).  A write under a
+    test that names the key itself (a default for the absent option) is not followed."""
+    smethods = index.methods(SCEN, "Scenarios")
+    rmethods = index.methods(RUN, "ScenarioRunner")
+    out = []
+
+    def nodes(st):
+        if isinstance(st, ast.If) and repr(key) in norm_src(st.test):
+            return
+        yield st
+        for ch in ast.iter_child_nodes(st):
+            yield from nodes(ch)
+
+    def scan(stmts, depth, seen, via):
+        for st in stmts:
+            for n in nodes(st):
+                if isinstance(n, (ast.Assign, ast.AugAssign)):
+                    for t in (n.targets if isinstance(n, ast.Assign) else [n.target]):
+                        if isinstance(t, ast.Subscript):
+                            base, ks = key_chain(t)
+                            if base in DICTS and ks == [key]:
+                                out.append(f"{via}line {n.lineno}: direct store")
+                if isinstance(n, ast.Call):
+                    d = dotted(n.func) or ""
+                    if d.startswith("scenario_loader.") and d.split(".", 1)[1] in smethods:
+                        m = d.split(".", 1)[1]
+                        if m not in NON_SETTERS and key in written_keys(smethods[m], smethods):
+                            out.append(f"{via}line {n.lineno}: Scenarios.{m}() writes it")
+                    elif d.startswith("self.") and d[5:] in rmethods and depth < 2 and d[5:] not in seen and rmethods[d[5:]] is not fn:
+                        scan(rmethods[d[5:]].body, depth + 1, seen | {d[5:]}, f"{via}{d}() -> ")
+
+    scan(fn.body[fn.body.index(blk) + 1:], 0, set(), "")
+    return sorted(set(out))
+
+
 def override(index, rep):
     rule = "C13.OVERRIDE"
     fn = index.func(RUN, "ScenarioRunner.set_depending_on_option")
@@ -1705,6 +1742,13 @@ def override(index, rep):
         rep.check(ok, rule, f"override:{key}",
                   f"override {key} does not write exactly constants_for_params[{key!r}] = float(option) with a {lo}..{hi} range check",
                   loc=loc(RUN, fn))
+        # the override is the last word: no statement that runs after the block writes the same constant again (every shut-off
+        # setter writes its own threshold, so an override placed before the dispatch of `shutoff` is silently lost)
+        if len(blk) == 1:
+            later = _later_writers(index, fn, blk[0], key)
+            rep.check(not later, rule, f"override-survives:{key}",
+                      f"the configured {key} is overwritten after the override block: " + "; ".join(later[:4]) +
+                      " - the option no longer means what it says", loc=loc(RUN, blk[0]))
     # multipliers scale exactly RATIO_CROPS_YEAR1..11 / RATIO_GRASSES_YEAR1..11
     for opt, prefix in (("CROP_PRODUCTION_MULTIPLIER", "RATIO_CROPS_YEAR"), ("GRASSES_PRODUCTION_MULTIPLIER", "RATIO_GRASSES_YEAR")):
         blk = [st for st in fn.body if isinstance(st, ast.If) and norm_src(st.test).startswith(f"'{opt}' in scenario_option_copy")]
